@@ -1,7 +1,7 @@
 (* C08 model runner.  One history per line:
      <id> H <meta> <autosave> <autogc> <N> <T> <node>*N <op>*   (meta = seed.tier.index, ignored)
-   node:  <m|b><d|-><s|-> ':' <succ,succ,..|-> ':' <subject|->
-   op:    P<k> | T<k>:<x>:<a|->:<t|d> | U<t> | V<k> | D<k> | G | S | R | C | I<k> | X<v|i|a|f><id>
+   node:  <m|b><d|-><s|-><x|-> ':' <succ,succ,..|-> ':' <subject|->
+   op:    P<k> | Q<k>:<x>:<a|-> | T<k>:<x>:<a|->:<t|d|D<j>> | U<t> | V<k> | D<k> | G | S | R | C | I<k> | X<v|i|a|f><id> | A<0|1> | W.. M.. (not judged)
    Output: <id> followed by one token per op: the result, or for C the observation
    of the store and of the store reopened from its directory (printed three times:
    oci.New, NewFromFS, NewFromTar all read the same index.json / blobs). *)
@@ -9,6 +9,7 @@ let fix_f2 = true
 let fix_a = true
 let fix_f1 = true
 let fix_hold = true
+let fix_ref = true
 
 let ios = int_of_string
 let list_of_commas s = if s = "-" then [] else List.map ios (String.split_on_char ',' s)
@@ -20,6 +21,7 @@ let show_desc d =
 let show_result r = match r with
   | ROk -> "ok" | RAlreadyExists -> "exists" | RNotFound -> "notfound"
   | RInvalidReference -> "invalidref" | RHang -> "hang" | ROutOfFuel -> "fuel"
+  | RBadContent -> "badcontent"
 
 let () =
   iter_lines (fun l ->
@@ -27,8 +29,7 @@ let () =
     | id :: "H" :: _meta :: asv :: agc :: ns :: ts :: fs :: rest ->
       let n = ios ns and t = ios ts in
       let froms = list_of_commas fs in
-      let strays = ref [] and all_strays = ref [] in
-      let ismf = Array.make n false and isd = Array.make n false and issk = Array.make n false
+      let ismf = Array.make n false and isd = Array.make n false and issk = Array.make n false and isbad = Array.make n false
       and sc = Array.make n [] and sj = Array.make n None in
       let rec nodes i rest =
         if i = n then rest else
@@ -36,7 +37,7 @@ let () =
         | tok :: rest' ->
           (match String.split_on_char ':' tok with
            | [fl; su; sb] ->
-             ismf.(i) <- fl.[0] = 'm'; isd.(i) <- fl.[1] = 'd'; issk.(i) <- fl.[2] = 's';
+             ismf.(i) <- fl.[0] = 'm'; isd.(i) <- fl.[1] = 'd'; issk.(i) <- fl.[2] = 's'; isbad.(i) <- (String.length fl > 3 && fl.[3] = 'x');
              sc.(i) <- List.map nat_of_int (list_of_commas su);
              sj.(i) <- (if sb = "-" then None else Some (nat_of_int (ios sb)))
            | _ -> failwith "node");
@@ -46,18 +47,22 @@ let () =
       let inr k = let i = int_of_nat k in if i < n then Some i else None in
       let mf k = match inr k with Some i -> ismf.(i) | None -> false in
       let dflt k = match inr k with Some i -> isd.(i) | None -> false in
+      let bad k = match inr k with Some i -> isbad.(i) | None -> false in
       let sk k = match inr k with Some i -> issk.(i) | None -> false in
       let succs k = match inr k with Some i -> sc.(i) | None -> [] in
       let subj k = match inr k with Some i -> sj.(i) | None -> None in
       let nn = nat_of_int n and tn = nat_of_int t in
-      let cfg = { autosave = (asv = "1"); autogc = (agc = "1") } in
+      let idnum = (try int_of_string (String.sub id 1 (String.length id - 1)) with _ -> 0) in
+      let eval seed0 =
+      let strays = ref [] and all_strays = ref [] in
+      let cfg = ref { autosave = (asv = "1"); autogc = (agc = "1") } in
       let st = ref store_empty in
       let buf = Buffer.create 256 in
       (* Go's map iteration orders are not controllable: the model is run with
          pseudo-random orders (seeded by the case id); what is compared is independent
          of them (theorems for index.json / reopening; generator restrictions for the
          AutoGC cascade and the referrer pass of GC) *)
-      let rs = ref ((try int_of_string (String.sub id 1 (String.length id - 1)) with _ -> 0) * 7919 + 17) in
+      let rs = ref seed0 in
       let rnd () = rs := (!rs * 1103515245 + 12345) land 0x3fffffff; (!rs lsr 8) land 0xffff in
       let rec rlist k = if k = 0 then [] else let x = nat_of_int (rnd () mod 13) in x :: rlist (k - 1) in
       let rec rlists n k = if n = 0 then [] else let x = rlist k in x :: rlists (n - 1) k in
@@ -68,7 +73,7 @@ let () =
         let d = rlists 6 10 in let e = rpairs 8 in
         { o_save1 = a; o_save2 = b; o_gc1 = c; o_gc2 = d; o_del = e } in
       let do_op o =
-        let (s', r) = step nn mf succs subj sk fix_f2 fix_a fix_f1 fix_hold cfg !st (o, orders ()) in
+        let (s', r) = step nn mf succs subj sk bad fix_f2 fix_a fix_f1 fix_hold fix_ref !cfg !st (o, orders ()) in
         st := s'; Buffer.add_string buf (" " ^ show_result r) in
       let obs s =
         let b = Buffer.create 128 in
@@ -97,12 +102,24 @@ let () =
         let arg = String.sub tok 1 (String.length tok - 1) in
         match tok.[0] with
         | 'P' -> do_op (OPush (nat_of_int (ios arg)))
+        | 'Q' ->
+          (match String.split_on_char ':' arg with
+           | [k; x; a] ->
+             let x = if x = "6" then "0" else x in
+             do_op (OPushX { d_node = nat_of_int (ios k); d_extra = nat_of_int (ios x);
+                             d_refann = (if a = "-" then None else Some (RTag (nat_of_int (ios a)))) })
+           | _ -> failwith "push op")
         | 'T' ->
           (match String.split_on_char ':' arg with
            | [k; x; a; r] ->
+             (* variant 6 (empty non-nil containers) is the same JSON value as variant 0 *)
+             let x = if x = "6" then "0" else x in
              let d = { d_node = nat_of_int (ios k); d_extra = nat_of_int (ios x);
                        d_refann = (if a = "-" then None else Some (RTag (nat_of_int (ios a)))) } in
-             let rf = if r = "d" then RDig d.d_node else RTag (nat_of_int (ios r)) in
+             let rf = if r = "d" then RDig d.d_node
+                      else if r = "B" then RDig (nat_of_int (n + 7))   (* a name Tag refuses: not valid UTF-8 *)
+                      else if r.[0] = 'D' then RDig (nat_of_int (ios (String.sub r 1 (String.length r - 1))))
+                      else RTag (nat_of_int (ios r)) in
              do_op (OTag (d, rf))
            | _ -> failwith "tag op")
         | 'U' -> do_op (OUntag (RTag (nat_of_int (ios arg))))
@@ -114,6 +131,7 @@ let () =
           if Buffer.sub buf before (Buffer.length buf - before) = " ok" then
             strays := List.filter (fun (_, k) -> not (gc_sweeps_stray k)) !strays
         | 'I' -> do_op (OInject (nat_of_int (ios arg)))
+        | 'A' -> do_op (OSetAutoGC (arg = "1")); cfg := { !cfg with autogc = (arg = "1") }
         | 'X' ->
           let k = match arg.[0] with 'v' -> SValidName | 'i' -> SInvalidName | 'a' -> SUnknownAlg | _ -> SBlobsFile in
           strays := !strays @ [("x" ^ arg, k)];
@@ -125,9 +143,19 @@ let () =
           let o = obs !st and r = obs (reopen nn mf succs !st) in
           let xs = String.concat "," (List.map (fun tok ->
             tok ^ (if List.mem_assoc tok !strays then "=1" else "=0")) !all_strays) in
-          Buffer.add_string buf (Printf.sprintf " C[%s|%s|%s|%s|v%d|x:%s]" o r r r (if disk_valid !st then 1 else 0) xs)
+          Buffer.add_string buf (Printf.sprintf " C[%s|%s|%s|%s|%s|v%d|x:%s]" o r r r r (if disk_valid !st then 1 else 0) xs)
         | _ -> failwith "op") ops;
-      Printf.printf "%s%s\n" id (Buffer.contents buf)
+      Buffer.contents buf in
+      (* the history is evaluated under two unrelated streams of iteration orders: the
+         compared text must not depend on them (a difference is reported, never hidden) *)
+      if List.exists (fun tok -> tok.[0] = 'W' || tok.[0] = 'M') ops then
+        (* Tag with a descriptor that does not describe the stored content: outside the model *)
+        Printf.printf "%s UNJUDGED\n" id
+      else
+      let o1 = eval (idnum * 7919 + 17) in
+      let o2 = eval (idnum * 104729 + 3) in
+      if o1 = o2 then Printf.printf "%s%s\n" id o1
+      else Printf.printf "%s ORDER-DEPENDENT-MODEL-OUTCOME%s ///%s\n" id o1 o2
     | id :: "F" :: _fmt :: cl :: "E" :: rest ->
       (* internal/fs/tarfs unit case: F <format> <clean ids> E <raw:kind:content>* Q <path>* *)
       let tbl = Array.of_list (list_of_commas cl) in
@@ -143,10 +171,11 @@ let () =
                          te_data = nat_of_int (ios c) }
         | _ -> failwith "tar entry") ents in
       let outs = List.map (fun q ->
-        match tar_open clean tar (nat_of_int (ios q)) with
+        match tar_open clean true tar (nat_of_int (ios q)) with
         | FData c -> "D" ^ string_of_int (int_of_nat c)
         | FNotExist -> "N"
-        | FUnsupported -> "U") qs in
+        | FUnsupported -> "U"
+        | FBroken -> "X") qs in
       Printf.printf "%s %s\n" id (String.concat " " outs)
     | [] -> ()
     | _ -> Printf.printf "BADLINE %s\n" l)
